@@ -168,7 +168,20 @@ func init() {
 	// ---- primitives ------------------------------------------------------
 	reg(&family{name: "prim3", dim: 3, group: "primitives", leaf: true,
 		gen: func(g *G, depth int, lab string) *node {
-			return &node{Op: "prim3", S3: []gen.Shape3{gen.Shape3Gen(g.t, gen.AllKinds3, 0.8, g.aspect, lab+".prim")}}
+			s := gen.Shape3Gen(g.t, gen.AllKinds3, 0.8, g.aspect, lab+".prim")
+			if (s.Kind == "cylinder" || s.Kind == "cone") && rapid.IntRange(0, 3).Draw(g.t, lab+".nearlyaligned") == 0 {
+				// an axis that is almost, but not exactly, parallel to a coordinate axis (a tiny levelling rotation):
+				// the rim still rises by radius * tilt above the centre of the cap
+				k := rapid.IntRange(0, 2).Draw(g.t, lab+".axis")
+				tilt := gen.LogF(g.t, 1e-10, 1e-4, lab+".tilt")
+				var d kit.V3
+				d[k] = 1
+				d[(k+1)%3] = tilt
+				d[(k+2)%3] = -0.4 * tilt
+				s.B = s.A.Add(d.Scale(s.A.Dist(s.B)))
+				s.R *= gen.LogF(g.t, 1, 300, lab+".wide")
+			}
+			return &node{Op: "prim3", S3: []gen.Shape3{s}}
 		},
 		build: func(b *built) {
 			s := b.n.S3[0]
@@ -477,7 +490,13 @@ func init() {
 			case helper && x.Kind == "rotation":
 				b.set3(model3d.RotateSolid(k.s3, m3.C3(x.V), x.S))
 			default:
-				b.set3(model3d.TransformSolid(t, k.s3))
+				// the caller's own transform object, reused afterwards for the next copy of a layout: the solid that
+				// was built keeps the box AND the membership it was built with
+				mine := x.Build()
+				b.set3(model3d.TransformSolid(mine, k.s3))
+				if tr, ok := mine.(*model3d.Translate); ok {
+					tr.Offset = tr.Offset.Add(model3d.XYZ(7.5, -3.25, 5))
+				}
 			}
 			// definition: p is inside iff the pre-image of p is inside the wrapped solid.  The
 			// pre-image is taken with the library's own inverse transform object (a part,
